@@ -24,7 +24,7 @@ What is proved for every program / argument list, and what is not:
 * the `EventId` wrapper keeps its name as a C string: `eventid_name_partial` + `eventid_name_witness`;
   `eventid_without_name` is the behaviour after fix D23. -/
 namespace Otel.C13
-open Otel Otel.Attr Otel.LogRecord
+open Otel Otel.SAttr Otel.LogRecord
 
 /-! ## The argument pack: a left-to-right fold, later argument wins per field -/
 
